@@ -1118,11 +1118,11 @@ func c13EpochTargets(f *c13Fixtures) []*c13Target {
 			gs = c13Limits{nRandom: ev.Pick(40, 800), maxCuts: ev.Pick(200, 5000), maxKeys: ev.Pick(40, 0)}
 		default: // medium
 			car = c13Limits{nRandom: ev.Pick(60, 1500), maxCuts: ev.Pick(250, 6000), maxKeys: ev.Pick(60, 400)}
-			carRemote = c13Limits{nRandom: ev.Pick(8, 300), maxCuts: ev.Pick(30, 1200), maxKeys: ev.Pick(30, 200)}
+			carRemote = c13Limits{nRandom: ev.Pick(15, 300), maxCuts: ev.Pick(60, 1200), maxKeys: ev.Pick(40, 200)}
 			idx = c13Limits{nRandom: ev.Pick(40, 1000), maxCuts: ev.Pick(180, 5000), maxKeys: ev.Pick(60, 400)}
-			idxRemote = c13Limits{nRandom: ev.Pick(6, 200), maxCuts: ev.Pick(24, 1000), maxKeys: ev.Pick(20, 200)}
+			idxRemote = c13Limits{nRandom: ev.Pick(10, 200), maxCuts: ev.Pick(40, 1000), maxKeys: ev.Pick(30, 200)}
 			big = c13Limits{nRandom: ev.Pick(20, 300), maxCuts: ev.Pick(70, 1000), maxKeys: ev.Pick(60, 400)}
-			bigRemote = c13Limits{nRandom: ev.Pick(2, 100), maxCuts: ev.Pick(8, 300), maxKeys: ev.Pick(20, 200)}
+			bigRemote = c13Limits{nRandom: ev.Pick(4, 100), maxCuts: ev.Pick(14, 300), maxKeys: ev.Pick(30, 200)}
 			gs = c13Limits{nRandom: ev.Pick(30, 600), maxCuts: ev.Pick(120, 3000), maxKeys: ev.Pick(40, 300)}
 		}
 		var t *c13Target
